@@ -1010,6 +1010,39 @@ def replay_metric(qq, groups):
     return ("spurious", "isometry natively for the tried cells")
 
 
+# ------------------------------------------------------------------------------ Clone fidelity (shared by C04, C08, C09)
+
+def clone_queries(ex):
+    """Clone of a cell / site / state yields equal parameter values, the same family, the same
+    symmetry table (the CLI optimises clones of its template state for every replica)."""
+    qs = []
+    f_cc = [f for f in ex.fns if f.name.startswith("cell::") and f.name.endswith("::clone") and "Cell2" in f.args[0][1]][0]
+    f_sc = [f for f in ex.fns if f.name.startswith("site::") and f.name.endswith("::clone") and "OccupiedSite" in f.args[0][1]][0]
+    a, q, t = F("a"), F("q"), F("t")
+    for fam in ["Monoclinic", "Orthorhombic", "Hexagonal", "Tetragonal"]:
+        cell = S.cell(a, q, t, fam)
+        c2, pc, _ = E.run(ex, f_cc, [E.ByRef(cell)])
+        same_fam = isinstance(c2.fields[3], Enum) and c2.fields[3].concrete() and c2.fields[3].alts[0][1] == fam
+        vals = [(c2.fields[i].fields[0].fields[0], cell.fields[i].fields[0].fields[0]) for i in range(3)]
+        qs.append(Query("Cell2::clone keeps the crystal family (%s)" % fam, [not same_fam], meta=dict(fn="Cell2::clone", family=fam, got=str(c2.fields[3])[:80])))
+        qs.append(Query("Cell2::clone copies length, ratio, angle (%s)" % fam, pc + [neq_any(vals)], meta=dict(fn="Cell2::clone")))
+    data = S.real_data()
+    ops = data["groups"]["p2mg"]["ops"]
+    site = S.occupied_site(ops, F("x"), F("y"), F("th"))
+    s2, pc, _ = E.run(ex, f_sc, [E.ByRef(site)])
+    vals = [(s2.fields[i].fields[0].fields[0], site.fields[i].fields[0].fields[0]) for i in (1, 2, 3)]
+    qs.append(Query("OccupiedSite::clone copies x, y, angle", pc + [neq_any(vals)], meta=dict(fn="OccupiedSite::clone")))
+    qs.append(Query("OccupiedSite::clone keeps the symmetry table", [s2.fields[0] != site.fields[0]], meta=dict(fn="OccupiedSite::clone"), nontrivial=False))
+    return qs
+
+
+def replay_clone(q):
+    if q.status == "sat" and "clone" in q.name:
+        # concrete witness through the real code: a cloned state must have the same JSON as the original
+        return ("violated", "%s: %s" % (q.name, q.meta), dict(kind="clone", fact=q.name, meta=q.meta), dict(clause="clone", what=q.name.split(" (")[0]))
+    return None
+
+
 # ------------------------------------------------------------------------------ C04
 
 def c04(res, tier, seed):
@@ -1083,9 +1116,10 @@ def c04(res, tier, seed):
                 notint = lambda v: T.band(*[T.bnot(T.fcmp("feq", v, float(i))) for i in range(-4, 5)])
                 qs.append(Query("[%s] op %d maps copy %d onto copy %d: position modulo lattice vectors" % (g, j, k, p), box + pc + [T.bor(notint(fx), notint(fy))], timeout=60,
                                 meta=dict(group=g, j=j, k=k, fn="OccupiedSite::positions")))
+    qs += clone_queries(ex)
     done = run_queries(qs)
     for qq in done:
-        record(res, qq, lambda q_: replay_c04(q_, groups))
+        record(res, qq, lambda q_: replay_clone(q_) or replay_c04(q_, groups))
     res.functions = used_fns(ex)
     res.stubs = summaries_used()
     res.bounds = ["groups with more than the identity; all site coordinates in [-1/2,1/2]^2, any orientation; all cells the group's family can reach (symbolic length, ratio, angle where free)"]
